@@ -207,11 +207,13 @@ class LinearOperator(EditableModule):
     def uselinopparams(self, *params):
         methodname = "mm"
         try:
-            _orig_params_ = self.getuniqueparams(methodname)
+            # the tensor of every name is put back (not one tensor per group of
+            # names that shared a tensor the first time the groups were determined)
+            _orig_params_ = self.getparams(methodname)
             self.setuniqueparams(methodname, *params)
             yield self
         finally:
-            self.setuniqueparams(methodname, *_orig_params_)
+            self.setparams(methodname, *_orig_params_)
 
     ############# implemented functions ################
     def mv(self, x: torch.Tensor) -> torch.Tensor:
